@@ -391,8 +391,9 @@ Proof.
     eapply (invA_task_done s k t (THave c) false); eauto. simpl. lia.
   - (* ConnectAdd *)
     destruct (alookup k (p_tasks s)) as [[t [|c]]|] eqn:E; try discriminate.
-    destruct (p_closed s); inv_some H.
+    destruct (p_closed s); [inv_some H|destruct (negb (memb c (p_open s))); inv_some H].
     + eapply (invA_task_done s k t (THave c) true); eauto. simpl. lia.
+    + eapply (invA_task_done s k t (THave c) false); eauto. simpl. lia.
     + eapply (invA_task_done s k t (THave c) true); eauto. rewrite app_length. simpl. lia.
   - (* ConnDie *)
     destruct (memb c (p_open s)); [|discriminate]. inv_some H.
